@@ -313,6 +313,37 @@ class StoreMachine(LoggedMachine):
         for i in range(len(self.model)):
             self._check_item(i, 'burst')
 
+    @precondition(lambda self: not self.finished and self.store is not None and self.mode in ('w', 'a', 'mem')
+                  and self.cache_mb == 1 and self.model)
+    @rule(seed=st.integers(0, 2**20), raw_id=st.integers(0, 2**40))
+    def add_oversize(self, seed, raw_id):
+        """A trajectory whose estimated size exceeds the whole 1 MB cache: it is either stored (and then reads back) or
+        refused with the store unchanged - never half-added."""
+        self.op('add_oversize', seed=seed, raw_id=raw_id)
+        self.ctx.evaluations += 1
+        n = 2200 if self.with_bulk else 12000
+        d = {'n': n, 'seed': seed, 'name': None, 'flight_id': None, 'extras': {}}
+        if self.with_bulk:
+            d['extras'][sc.fs_name(BULK)] = _bulk_values(seed, FILE_SPECIES[:1])
+        if self.identified:
+            d['flight_id'] = self._fresh_id(raw_id)
+        t = sc.build_traj(d, self.fdefs)
+        if t.nbytes <= self.store._trajectories.maxsize:
+            return
+        try:
+            idx = self.store.add(t)
+        except core.PASS_THROUGH:
+            raise
+        except Exception:  # noqa: BLE001  refusal: the invariant checks that nothing changed
+            self.flags.add('oversize_refused')
+            return
+        self.flags.add('oversize_accepted')
+        if idx != len(self.model):
+            self._fail('add.index', f'oversize add returned {idx}, expected {len(self.model)}', self.mode_class())
+        self.model.append(d)
+        if self.identified:
+            self.ids[d['flight_id']] = len(self.model) - 1
+
     def TS_eviction(self):
         from AEIC.trajectories.store import TrajectoryCache
 
@@ -391,6 +422,39 @@ class StoreMachine(LoggedMachine):
             if diffs:
                 self._fail('iterate.item', f'iteration item {i}: {diffs[0][0]}: {diffs[0][4]}', self.mode_class())
                 return
+
+    @precondition(lambda self: not self.finished and self.store is not None and self.mode in ('w', 'a') and self.model)
+    @rule(after=st.integers(0, 3), seed=st.integers(0, 2**20), raw_id=st.integers(0, 2**40))
+    def iterate_across_add(self, after, seed, raw_id):
+        """An iteration that is under way when a trajectory is added behaves like iteration over a Python list that is
+        appended to: it goes on to yield the new trajectory."""
+        self.op('iterate_across_add', after=after, seed=seed, raw_id=raw_id)
+        self.ctx.evaluations += 1
+        it = iter(self.store)
+        got = []
+        try:
+            for _ in range(min(after, len(self.model))):
+                got.append(next(it))
+            d = {'n': 4, 'seed': seed, 'name': None, 'flight_id': None, 'extras': {}}
+            if self.with_bulk:
+                d['extras'][sc.fs_name(BULK)] = _bulk_values(seed, FILE_SPECIES[:1])
+            if self.identified:
+                d['flight_id'] = self._fresh_id(raw_id)
+            n_before = len(self.model)
+            self.add(None, 0, _desc=d)
+            self._unlog()
+            if len(self.model) == n_before:
+                return
+            got.extend(it)
+        except core.PASS_THROUGH:
+            raise
+        except Exception as e:  # noqa: BLE001
+            self.ctx.fail_exc(f'iterate.{self.mode_class()}', e, 'across_add', self.log)
+            return
+        self.flags.add('iterate_across_add')
+        if len(got) != len(self.model):
+            self._fail('iterate.across_add', f'an iteration started before an add yielded {len(got)} trajectories, the store (and a list) has {len(self.model)}',
+                       self.mode_class())
 
     @precondition(lambda self: not self.finished and self.store is not None and self.mode in ('w', 'a'))
     @rule()
@@ -540,8 +604,8 @@ class StoreMachine(LoggedMachine):
 
     # ---- rejected additions (C10a)
     @precondition(lambda self: self.ENABLE_FAULTS and not self.finished and self.store is not None and self.mode in ('w', 'a', 'mem'))
-    @rule(data=st.data(), kind=st.sampled_from(INVALID_KINDS))
-    def add_invalid(self, data, kind, _desc=None):
+    @rule(data=st.data(), kind=st.sampled_from(INVALID_KINDS), flip_id=st.booleans())
+    def add_invalid(self, data, kind, _desc=None, flip_id=False):
         desc = _desc if _desc is not None else data.draw(desc_strategy(self.with_bulk))
         if self.identified:
             desc['flight_id'] = self._fresh_id(11)
@@ -550,8 +614,13 @@ class StoreMachine(LoggedMachine):
             kind = 'required_none'
         if kind == 'species_outside' and (not self.with_bulk or not self.model or self.mode == 'mem'):
             kind = 'required_none'
-        self.op('add_invalid', data=None, kind=kind, _desc=desc)
+        self.op('add_invalid', data=None, kind=kind, _desc=desc, flip_id=flip_id)
         self.ctx.evaluations += 1
+        if flip_id and not self.model and kind == 'required_none':
+            # nothing was ever added: a rejected first trajectory may use flight ids either way; whether the
+            # store is identified is decided by the first *successful* addition
+            desc = dict(desc, flight_id=(None if desc['flight_id'] is not None else 31337))
+            self.flags.add('rejected_first_add_other_id_kind')
         fdefs = self.fdefs
         if kind == 'missing_fieldset':
             if self.with_bulk:
@@ -754,7 +823,7 @@ def plan_strategy(draw, lookups=False, faults=False):
         for _ in range(nops):
             choices = ['read_all', 'read_old', 'iterate', 'oob']
             if mode != 'r':
-                choices += ['burst', 'burst', 'add_small', 'add_small', 'sync']
+                choices += ['burst', 'burst', 'add_small', 'add_small', 'sync', 'oversize']
                 if faults:
                     choices += ['add_invalid', 'add_invalid']
             else:
@@ -765,6 +834,8 @@ def plan_strategy(draw, lookups=False, faults=False):
             op = {'op': kind}
             if kind == 'burst':
                 op.update(k=draw(st.integers(2, 5)), seed=draw(st.integers(0, 2**20)), raw_id=draw(st.integers(0, 2**40)))
+            elif kind == 'oversize':
+                op.update(seed=draw(st.integers(0, 2**20)), raw_id=draw(st.integers(0, 2**40)))
             elif kind == 'add_small':
                 op.update(n=draw(st.integers(1, 60)), seed=draw(st.integers(0, 2**20)), raw_id=draw(st.one_of(st.integers(0, 40), st.integers(0, 2**62))))
             elif kind == 'read_all':
@@ -820,6 +891,8 @@ def run_plan(machine_cls, ctx: core.Ctx, plan: dict):
                     if m.identified:
                         d['flight_id'] = m._fresh_id(op['raw_id'])
                     StoreMachine.add(m, None, 0, _desc=d)
+                elif kind == 'oversize' and m.mode in ('w', 'a', 'mem') and m.cache_mb == 1 and m.model:
+                    StoreMachine.add_oversize(m, op['seed'], op['raw_id'])
                 elif kind == 'read_all' and m.model:
                     n = len(m.model)
                     idx = list(range(n))
@@ -848,7 +921,7 @@ def run_plan(machine_cls, ctx: core.Ctx, plan: dict):
                 elif kind == 'add_invalid' and m.mode in ('w', 'a', 'mem'):
                     d = {'n': op['n'], 'seed': op['seed'], 'name': None, 'flight_id': None, 'extras': (
                         {sc.fs_name(BULK): _bulk_values(op['seed'], FILE_SPECIES[:1])} if m.with_bulk else {})}
-                    StoreMachine.add_invalid(m, None, op['kind'], _desc=d)
+                    StoreMachine.add_invalid(m, None, op['kind'], _desc=d, flip_id=bool(op['seed'] % 2))
                 elif kind == 'lookup_all' and m.identified and m.ids and m.mode != 'mem':
                     if getattr(m.store, 'index_stale', False):
                         m.flags.add('lookup_while_stale')
